@@ -134,7 +134,8 @@ def plan_button(cases: Cases, uniform: list, free: list, quick: bool, rnd: rando
     plan = [(f"k{k}", by_k.get(k, [])) for k in range(4)]
     plan += [("fn", _sample(by_k.get(1, []), extra, rnd)), ("nohandler", _sample(by_k.get(1, []), extra, rnd)),
              ("positional", _sample(by_k.get(1, []), extra, rnd)), ("if", _sample(by_k.get(2, []), extra, rnd)),
-             ("mixed", _sample(by_k.get(2, []), extra, rnd)), ("readme", _sample(by_k.get(0, []), extra, rnd))]
+             ("mixed", _sample(by_k.get(2, []), extra, rnd)), ("readme", _sample(by_k.get(0, []), extra, rnd)),
+             ("fnwhile", _sample(by_k.get(2, []), extra, rnd))]
     for shape, behs in plan:
         key = cases.shape("button/" + shape, FI.button_shape(shape))
         meta = cases.shapes[key]
